@@ -525,6 +525,8 @@ def state_class(case):
 def replay_case(module, case):
     """generic --replay implementation for bounded cases"""
     import importlib
+    if (case.get('replay') or {}).get('kind') == 'obligation':
+        return replay_obligation(module, case)
     install_extracted_kernels()
     mod = importlib.import_module('props.%s' % module)
     rc = getattr(mod, 'SCOPES')[case['replay']['scope']]
@@ -540,3 +542,30 @@ def replay_case(module, case):
         return 1
     print('replay: recorded clause %s holds on the current tree' % want)
     return 0
+
+
+def replay_obligation(module, case):
+    """--replay of a deductive violation: the obligation is generated again from /repo's current source and handed
+    to the solvers; when the run that reported it also had a failing input from the bounded tier, that input is
+    replayed on the real code as well"""
+    from . import prove
+    key = case['replay']['contract']
+    want = prove.noline(case['obligation'])
+    res = prove.prove_contracts([key], budget_s=10.0)[key]
+    if res['error']:
+        print('replay: the prover refuses %s on the current tree: %s' % (key, res['error'][:300]))
+        return 3
+    st = {prove.noline(a['name']): a['status'] for a in prove.aggregate(res['obligations'])}
+    status = st.get(want)
+    print('replay obligation %s: %s on the current tree' % (want, status or 'no longer generated'))
+    rb = case['replay'].get('related_bounded_replay')
+    rc = 0
+    if rb and rb.get('scope'):
+        print('replaying the failing input of the same run on the real code:')
+        rc = replay_case(rb.get('module', module), {'property': case['property'], 'obligation': case['replay'].get('related_bounded_obligation') or '',
+                                                    'replay': rb})
+    if status is not None and status != 'proved':
+        print('VIOLATION property=%s replay=(replayed: obligation %s is %s again)%s'
+              % (case['property'], want, status, '' if rc == 1 else ' no-failing-input-found'))
+        return 1
+    return rc
